@@ -27,6 +27,9 @@ TOLERANCES = {"perturb": "bit-identical", "permute": "1e3 * eps * scale", "noise
 @st.composite
 def _solver_case(draw, tier, kind):
     spec, combo = draw(solve.spec_and_combo(dtypes=("float64", "float32"), max_batch=6, min_batch=2))
+    # per-sample conditioning: every row has its own drift/diffusion scale, which belongs to the row like its y0 and its
+    # Brownian row do (it is replaced / permuted together with them)
+    spec["rowdep"] = draw(st.sampled_from([False, True]))
     tset = draw(solve.time_setup(max_steps=12 if tier == "quick" else 32, dtypes=(spec["dtype"],)))
     return {"kind": kind, "spec": spec, "combo": combo, "time": tset, "row": draw(st.integers(0, 5)),
             "logqp": draw(st.sampled_from([False, True])) if spec["noise_type"] == "diagonal" else
@@ -96,6 +99,7 @@ def run_case(case):
     eps = torch.finfo(dtype).eps
     B = spec["batch"]
     sde = sdes.build_generic(spec)
+    base_sde_ = sde
     y0 = sdes.y0_for(spec)
     ts = torch.tensor([tm["t0"], 0.5 * (tm["t0"] + tm["t1"]), tm["t1"]], dtype=dtype)
     if not float(ts[0]) < float(ts[1]) < float(ts[2]):
@@ -106,12 +110,23 @@ def run_case(case):
         sde = _SmallGRows(sde)        # other rows may carry a vanishing diffusion (guarded division in the KL integrand)
     m_bm = spec["m"] + 1 if (logqp and spec["noise_type"] == "diagonal") else spec["m"]
     shape = (B, m_bm)
+    sde_default = sde
+    rowdep = bool(spec.get("rowdep"))
 
     def mk(entropy):
         return torchsde.BrownianInterval(t0=float(ts[0]), t1=float(ts[-1]), size=shape, dtype=dtype, entropy=int(entropy),
                                          levy_area_approximation=combo["levy"])
 
-    def go(y, bm):
+    def with_rowscale(new_first_rows):
+        """The same SDE with other per-row scales (rows 0..B-1)."""
+        other = sdes.build_generic(spec)
+        rs = other.rowscale.clone()
+        rs[:B] = new_first_rows
+        other.rowscale = rs
+        return _SmallGRows(other) if (logqp and spec["noise_type"] == "diagonal") else other
+
+    def go(y, bm, sde=None):
+        sde = sde_default if sde is None else sde
         with torch.no_grad():
             out = torchsde.sdeint(sde, y, ts, bm=bm, method=combo["method"], dt=tm["dt"],
                                   options=dict(combo["options"]) or None, logqp=logqp)
@@ -125,7 +140,7 @@ def run_case(case):
     ref = go(y0, mk(case["entropy"]))
     steps = (tm["t1"] - tm["t0"]) / tm["dt"]
     labels = [f"kind={case['kind']}", solve.combo_label(combo), f"batch={B}", f"dtype={spec['dtype']}"] + \
-        (["with_logqp"] if logqp else [])
+        (["with_logqp"] if logqp else []) + (["per_sample_conditioning"] if rowdep else [])
     if case["kind"] == "perturb":
         i = case["row"] % B
         mask = torch.zeros(B, dtype=torch.bool)
@@ -148,7 +163,11 @@ def run_case(case):
             return out[0] if len(out) == 1 else tuple(out)
 
         proxy = brownian_tools.make_proxy(shape, dtype, combo["levy"], mixed)
-        got = go(y_mix, proxy)
+        sde_mix = None
+        if rowdep:
+            rs = base_sde_.rowscale[:B]
+            sde_mix = with_rowscale(torch.where(mask, rs, rs * 1.37 + 0.05))
+        got = go(y_mix, proxy, sde_mix)
         ok = torch.equal(got[:, i], ref[:, i])
         changed_elsewhere = not torch.equal(got, ref)
         fail = None
@@ -165,7 +184,7 @@ def run_case(case):
         perm = torch.roll(torch.arange(B), 1)
     inner = mk(case["entropy"])
     proxy = brownian_tools.make_mapped(inner, shape, lambda name, x: x[perm])
-    got = go(y0[perm], proxy)
+    got = go(y0[perm], proxy, with_rowscale(base_sde_.rowscale[:B][perm]) if rowdep else None)
     scale = max(1.0, float(ref.abs().max()))
     e = float((got - ref[:, perm]).abs().max()) / scale
     fail = None
